@@ -393,7 +393,7 @@ def run_component(ctx, comp, scale=1.0):
             script = gen_script(ctx, comp, payload[0], payload[1])
         else:
             script = payload
-        impl, model, crashes = exec_script(ctx, comp, script, '%s-%s' % (comp.name, tag), race=comp.race, env=comp.env, timeout=comp.timeout)
+        impl, model, crashes = exec_script(ctx, comp, script, '%s-%s' % (comp.name, tag), want_model=comp.differential, race=comp.race, env=comp.env, timeout=comp.timeout)
         return evaluate(ctx, comp, script, impl, model, crashes)
 
     with cf.ThreadPoolExecutor(max_workers=min(NCPU, len(jobs))) as ex:
